@@ -45,9 +45,12 @@ import (
 	"fmt"
 	"math"
 	"sort"
+	"strings"
+	"sync"
 	"testing"
 
 	"go.opentelemetry.io/otel/attribute"
+	"go.opentelemetry.io/otel/sdk/resource"
 	sdktrace "go.opentelemetry.io/otel/sdk/trace"
 	"go.opentelemetry.io/otel/trace"
 	"go.opentelemetry.io/otel/verif/internal/vk"
@@ -65,6 +68,13 @@ type Variant struct {
 	PSC    SC      `json:"psc"`    // used when Parent == "ctx"
 }
 
+// EnvRatio is a ratio sampler configured through the environment.
+type EnvRatio struct {
+	ParentBased bool   `json:"parent_based,omitempty"` // parentbased_traceidratio instead of traceidratio
+	NameStyle   int    `json:"name_style,omitempty"`   // spelling of the name, see styleName
+	Arg         string `json:"arg"`                    // OTEL_TRACES_SAMPLER_ARG, verbatim
+}
+
 // AlgCase is one generated input of the sampler_algebra check.
 type AlgCase struct {
 	TIDs        []string  `json:"tids"`
@@ -72,7 +82,15 @@ type AlgCase struct {
 	Variants    []Variant `json:"variants"`
 	BlockSeed   uint64    `json:"block_seed"`
 	BlockRatios []vk.F64  `json:"block_ratios"` // non-NaN
+	// Env: ratio samplers built by NewTracerProvider from OTEL_TRACES_SAMPLER /
+	// OTEL_TRACES_SAMPLER_ARG; each must agree, decision by decision, with the
+	// programmatic TraceIDRatioBased(r) for the r its argument text denotes.
+	Env []EnvRatio `json:"env,omitempty"`
 }
+
+// envBlockN is how many of the block's trace IDs are also put to the
+// environment-configured samplers.
+const envBlockN = 128
 
 const blockN = 4096
 
@@ -186,7 +204,142 @@ func genAlg(t *rapid.T) AlgCase {
 	}
 	c.BlockSeed = rapid.Uint64().Draw(t, "block_seed")
 	c.BlockRatios = []vk.F64{genRatio(t, false, "br0"), genRatio(t, false, "br1")}
+	ne := rapid.IntRange(0, 2).Draw(t, "nenv")
+	for i := 0; i < ne; i++ {
+		e := EnvRatio{
+			ParentBased: rapid.Bool().Draw(t, "env_parent_based"),
+			NameStyle:   genNameStyle(t, "env_name_style"),
+		}
+		if rapid.IntRange(0, 11).Draw(t, "env_outside_domain") == 11 {
+			e.Arg = rapid.SampledFrom(notAssertedArgs).Draw(t, "env_other_arg")
+		} else {
+			// one of the case's own ratios when it is in [0,1] (the pair
+			// env/programmatic then shares the ratio with the other laws)
+			r := float64(c.Ratios[rapid.IntRange(0, len(c.Ratios)-1).Draw(t, "env_ratio_of")])
+			if !(r >= 0 && r <= 1) || rapid.Bool().Draw(t, "env_own_ratio") {
+				r = genEnvRatio(t, "env_ratio")
+			}
+			e.Arg = genRatioText(t, r, "env_arg")
+		}
+		c.Env = append(c.Env, e)
+	}
 	return c
+}
+
+// presetGen is an IDGenerator that hands out the trace ID the harness chose.
+type presetGen struct {
+	mu   sync.Mutex
+	next trace.TraceID
+	n    uint64
+}
+
+func (g *presetGen) NewIDs(context.Context) (trace.TraceID, trace.SpanID) {
+	g.mu.Lock()
+	defer g.mu.Unlock()
+	g.n++
+	return g.next, sidFromU64(splitmix64(g.n) | 1)
+}
+
+func (g *presetGen) NewSpanID(context.Context, trace.TraceID) trace.SpanID {
+	g.mu.Lock()
+	defer g.mu.Unlock()
+	g.n++
+	return sidFromU64(splitmix64(g.n) | 1)
+}
+
+func (g *presetGen) set(t trace.TraceID) {
+	g.mu.Lock()
+	g.next = t
+	g.mu.Unlock()
+}
+
+// runAlgEnv puts the case's trace IDs to one environment-configured ratio
+// sampler (through Tracer.Start: the sampler itself is not reachable) and
+// compares with the programmatic sampler for the denoted ratio.
+func runAlgEnv(c AlgCase, e EnvRatio, tids []trace.TraceID, bad func(kind, format string, a ...any), info *vk.Info) {
+	base := "traceidratio"
+	if e.ParentBased {
+		base = "parentbased_traceidratio"
+	}
+	name := styleName(base, e.NameStyle)
+	gen := &presetGen{}
+	var tp *sdktrace.TracerProvider
+	arg := e.Arg
+	reported := withSamplerEnv(name, &arg, func() {
+		tp = sdktrace.NewTracerProvider(sdktrace.WithResource(resource.Empty()), sdktrace.WithIDGenerator(gen))
+	})
+	defer func() { _ = tp.Shutdown(context.Background()) }()
+	tracer := tp.Tracer("c09.env")
+	r, ok := denotedRatio(e.Arg)
+	how := fmt.Sprintf("%s=%q %s=%q", envSamplerKey, name, envSamplerArgKey, e.Arg)
+	if len(reported) > 0 {
+		how += fmt.Sprintf(" (SDK reported %q)", reported)
+	}
+
+	all := make([]trace.TraceID, 0, len(tids)+envBlockN)
+	for _, tid := range tids {
+		if tid.IsValid() {
+			all = append(all, tid)
+		}
+	}
+	for i := 0; i < envBlockN; i++ {
+		all = append(all, blockTID(c.BlockSeed, i))
+	}
+	if !ok {
+		// outside this property's domain: does not panic
+		for _, tid := range all[:min(len(all), 12)] {
+			gen.set(tid)
+			_, sp := tracer.Start(context.Background(), "root")
+			sp.End()
+		}
+		info.Class("env:arg_outside_domain(no panic only)")
+		return
+	}
+	ref := sdktrace.TraceIDRatioBased(r)
+	judge := func(tid trace.TraceID, sp trace.Span, via string) {
+		sc := sp.SpanContext()
+		sp.End()
+		if sc.TraceID() != tid {
+			return // the span is not in the trace the harness meant to decide
+		}
+		got := sc.IsSampled()
+		want := sampledRes(ref.ShouldSample(sdktrace.SamplingParameters{ParentContext: context.Background(), TraceID: tid}))
+		switch {
+		case r <= 0 && got:
+			bad("env_ratio_zero_sampled", "%s denotes ratio %v: trace ID %s (%s) is sampled", how, r, tid, via)
+		case r >= 1 && !got:
+			bad("env_ratio_one_not_sampled", "%s denotes ratio %v: trace ID %s (%s) is not sampled", how, r, tid, via)
+		case got != want:
+			bad("env_ratio_disagrees", "%s denotes ratio %v: trace ID %s (%s) sampled=%v, TraceIDRatioBased(%v) decides sampled=%v", how, r, tid, via, got, r, want)
+		}
+	}
+	for _, tid := range all {
+		gen.set(tid)
+		_, sp := tracer.Start(context.Background(), "root")
+		judge(tid, sp, "root span")
+	}
+	if !e.ParentBased {
+		// the bare ratio sampler decides on the trace ID under any parent
+		for _, tid := range all[:min(len(all), len(tids)+8)] {
+			for _, v := range c.Variants {
+				if v.Parent != "ctx" {
+					continue
+				}
+				psc := v.PSC
+				sc := psc.build().WithTraceID(tid)
+				if !sc.IsValid() {
+					continue
+				}
+				_, sp := tracer.Start(ctxWith(sc), "child")
+				judge(tid, sp, "child of a supplied parent")
+			}
+		}
+	}
+	info.Class("env:" + base)
+	info.ClassIf(r == 0, "env:ratio_zero")
+	info.ClassIf(r == 1, "env:ratio_one")
+	info.ClassIf(r > 0 && r < 1, "env:ratio_interior")
+	info.ClassIf(name != base || strings.TrimSpace(e.Arg) != e.Arg, "env:blanks_or_case_in_spelling")
 }
 
 func (v Variant) params(tid trace.TraceID) (sdktrace.SamplingParameters, trace.TraceState) {
@@ -386,6 +539,10 @@ func runAlg(c AlgCase) ([]vk.Violation, vk.Info) {
 		}
 	}
 
+	for _, e := range c.Env {
+		runAlgEnv(c, e, tids, bad, &info)
+	}
+
 	for _, tid := range tids {
 		lo := uint64(0)
 		for _, b := range tid[8:] {
@@ -423,7 +580,7 @@ func runAlg(c AlgCase) ([]vk.Violation, vk.Info) {
 func TestSamplerAlgebra(t *testing.T) {
 	vk.Run(t, vk.Spec[AlgCase]{
 		Property: "C09", Check: "sampler_algebra",
-		Rule: "1..9 trace IDs (mixed 128-bit, low/high half zero, all ones, all zero, boundary values of the low half), 2..7 ratios from {0,-0,tiny,2^-k,0.5,1-eps,1,negative,>1,NaN,m/2^j +-ulp,uniform}, 1..3 variants of the irrelevant parameters (name, kind, attributes, links, nil/empty/local/remote parent with flags and tracestate) and a block of 4096 hash-derived trace IDs judged at two ratios; " +
+		Rule: "1..9 trace IDs (mixed 128-bit, low/high half zero, all ones, all zero, boundary values of the low half), 2..7 ratios from {0,-0,tiny,2^-k,0.5,1-eps,1,negative,>1,NaN,m/2^j +-ulp,uniform}, 1..3 variants of the irrelevant parameters (name, kind, attributes, links, nil/empty/local/remote parent with flags and tracestate) and a block of 4096 hash-derived trace IDs judged at two ratios; 0..2 ratio samplers configured through OTEL_TRACES_SAMPLER(_ARG) (traceidratio / parentbased_traceidratio, the ratio spelled in 'g'/'f'/'e' forms, signs, leading zeros, blanks, name in any letter case) compared decision by decision with TraceIDRatioBased of the denoted ratio on the case's trace IDs and 128 block IDs; " +
 			"non-trivial = some pair r < r' decides differently on some trace ID; distinct = distinct case encodings",
 		Quick: 1000, Thorough: 50000,
 		Gen: genAlg, Run: runAlg,
